@@ -297,7 +297,8 @@ def run(facts):
                 probs.append("O4: failure ordering is %s but the winner's control block is dereferenced on the Err edge, needs Acquire" % fail)
             # B2: expected operand is a previously loaded value (a parameter or a load), new is a fresh box
             a = s["args"]
-            if not contains(a[2], ("call",)) or not any(x[0] == "call" and x[1].endswith("Box::<T>::into_raw") for x in walk(a[2])):
+            from .r_a2 import mints_block
+            if not contains(a[2], ("call",)) or not mints_block(facts, a[2]):
                 probs.append("B2: CAS does not install a freshly boxed control block")
             if probs:
                 res.bad(key, loc, "; ".join(probs))
